@@ -958,6 +958,41 @@ def entry_builders(P, fn):
     return out
 
 
+def check_entry_pair_form(ctx, rule, P, fk, ents):
+    """The pairing input an entry contributes is (hash_to_point(message of THIS entry, tag), key of THIS entry): the hash
+    component is the hash call itself - not a value carried over from an earlier iteration or merged with one (a cache
+    keyed on the previous message, a default kept when a branch is skipped) - and its message and the key are projections
+    of the element the loop / closure is at."""
+    def of_element(t, mode):
+        t = strip_sites(t)
+        for _ in range(16):
+            t = B.peel(t)
+            if t.op == "call" and len(t.a[1]) >= 1 and (B.cname(t) in _COPYISH or B.cname(t) in ("AsRef::as_ref", "Deref::deref", "Borrow::borrow", "Clone::clone")):
+                t = t.a[1][0]
+                continue
+            if t.op in ("field", "downcast", "ref", "deref"):
+                t = t.a[0]
+                continue
+            break
+        if mode == "push-loop":
+            return t.op == "call" and B.cname(t) == "Iterator::next"
+        return (t.op == "param" and t.a[0] >= 2) or (t.op == "call" and B.cname(t) == "Iterator::next")
+
+    for e in ents:
+        v = B.peel(e["value"])
+        comps = list(v.a[1]) if v.op == "agg" and v.a[0][0] == "tuple" else []
+        hs = [B.peel(c) for c in comps if _has_h2p(c)]
+        ks = [c for c in comps if not _has_h2p(c)]
+        ok = len(comps) == 2 and len(hs) == 1 and len(ks) == 1
+        why = "pair = %s" % show(v, 4)
+        if ok:
+            h = hs[0]
+            direct = h.op == "call" and B.cname(h) == "HashToPoint::hash_to_point" and len(h.a[1]) == 2
+            ok = direct and of_element(h.a[1][0], e["mode"]) and of_element(ks[0], e["mode"])
+            why = "hash component %s; its message %s; key component %s" % ("is the hash_to_point call itself" if direct else "is NOT the call itself (carried over / merged): " + show(h, 3), "is a projection of the current element" if direct and of_element(h.a[1][0], e["mode"]) else "is not a projection of the current element", "is a projection of the current element" if of_element(ks[0], e["mode"]) else "is not a projection of the current element: " + show(B.peel(ks[0]), 3))
+        ctx.ob(rule, fk + "/entry-pair", ok, "every entry contributes (hash_to_point(its own message, tag), its own key): %s" % why, where=where(e["fn"], e["bb"]))
+
+
 def _R():
     from . import guardrules as R
 
@@ -1176,7 +1211,11 @@ def check_sum_once_of(ctx, rule, P, fn_key, list_param, out_adt, floor):
     f = ctx.need_fn(rule, fn_key, P)
     if f is None:
         return
-    cov = [R.covers_all(a_["source"], list_param) for a_ in accumulators(P, f) if a_["source"] is not None]
+    accs_ = accumulators(P, f)
+    for a_ in accs_:
+        # the sum has one term per element: no way round the loop (no closure exit) skips the addition and carries on
+        ctx.ob(rule, fn_key + "/every-element", a_["every"], "every element the accumulation visits is added, or the function leaves through Err (%s) - none is skipped" % a_["mode"], where=where(a_["fn"], a_["bb"]))
+    cov = [R.covers_all(a_["source"], list_param) for a_ in accs_ if a_["source"] is not None]
     if len(cov) != 1 or cov[0] not in ("all", "tail1"):
         ctx.ob(rule, fn_key, False, "accumulation over `%s` not recognised (coverage %s)" % (list_param, cov), where=where(f))
         return
